@@ -34,7 +34,9 @@ TRUSTED = [
 
 
 def classify_reject(err: str) -> str:
-    e = err
+    import re
+
+    e = re.sub(r"^\[def-at-line \d+\] ", "", err)
     if e.startswith("SchedulingError") and "same buffer" in e:
         return "alias"
     if "out-of-bounds" in e:
@@ -70,6 +72,7 @@ class C03:
         self.stricter = []        # accept(exo) /\ some VC invalid /\ search found nothing
         self.confirmed = 0        # accept(exo) /\ some VC invalid /\ search found a failing input
         self.locate_mismatch = 0
+        self.callee_rejected = 0
         self.alias = {"static_sites": 0, "dynamic": 0, "dynamic_runs": 0}
         self.tags = {}
 
@@ -83,6 +86,11 @@ class C03:
         mod, err = c03_gen.load_module(src, "c03")
         accepted = mod is not None and hasattr(mod, "foo")
         ir = mod.foo._loopir_proc if accepted else None
+        if not accepted and self.rejected_before_foo(src, err or ""):
+            # a callee (not `foo`) was rejected: nothing was decided about `foo`
+            self.callee_rejected += 1
+            ck.case(stream, h, False, None, "callee-rejected")
+            return
         if not accepted:
             rk = classify_reject(err or "no foo")
             self.reject_kinds[rk] = self.reject_kinds.get(rk, 0) + 1
@@ -159,6 +167,16 @@ class C03:
                     ck.violation("accepted-unsafe:Alias:call-alias:%s/%s" % (stream, family),
                                  {"source": src, "call_sites": sites},
                                  "accepted procedure passes one buffer to two arguments of a call: %s" % sites[0])
+
+    @staticmethod
+    def rejected_before_foo(src: str, err: str) -> bool:
+        """does the error text point (file:line:col) at a line above `def foo`?"""
+        import re
+
+        lines = src.split("\n")
+        foo = max([k + 1 for k, l in enumerate(lines) if l.startswith("def foo(")] or [0])
+        m = re.match(r"\[def-at-line (\d+)\]", err)
+        return bool(m) and 0 < int(m.group(1)) < foo - 1  # the decorator line belongs to foo
 
     def loopir_unchecked(self, src: str):
         """LoopIR of `foo` of a program the front end rejected in CheckBounds / Check_Aliasing (type-correct programs
@@ -302,9 +320,24 @@ def memoize_pysmt_factory():
     pf.Factory = factory
 
 
+def build_core_deps(ck):
+    """Bounds needs Core.Syntax, Core.Sem and Core.Equiv only; build exactly these (other engines add files to
+    coq/Core concurrently, a half-written file there must not break this check)"""
+    d = common.COQ / "Core"
+    prev = []
+    for stem in ("Syntax", "Sem", "Equiv"):
+        vo, v = d / (stem + ".vo"), d / (stem + ".v")
+        if stale(vo, [v] + prev):
+            rc, out = common.sh("coqc -Q . Core %s.v" % stem, timeout=600, cwd=d)
+            if rc != 0:
+                ck.broken_obligation("coq-build:Core." + stem, out[-600:])
+        prev.append(vo)
+    ck.obligation("Core.Syntax/Sem/Equiv compiled", all((d / (s + ".vo")).exists() for s in ("Syntax", "Sem", "Equiv")))
+
+
 def run(ck):
     memoize_pysmt_factory()
-    ck.coq_build("Core", props=[])
+    build_core_deps(ck)
     if stale(common.COQ / "Core" / "_build" / "interp", [common.COQ / "Core" / "ocaml" / "interp.ml", common.COQ / "Core" / "driver.ml"]):
         ck.extract("Core")
     ck.coq_build("Bounds")
@@ -313,9 +346,10 @@ def run(ck):
     ck.log("build done at %.1fs" % (time.time() - ck.t0))
     c = C03(ck)
     rng = ck.rng
-    budget = ck.n(90, 840)
     t0 = time.time()
-    n_valid, n_tmpl, n_mut = ck.n(250, 4000), ck.n(1000, 12000), ck.n(350, 6000)
+    # quick: the whole run stays under 3 minutes whatever the build took; thorough: under 20 minutes
+    budget = max(25.0, 160.0 - (t0 - ck.t0)) if not ck.thorough else max(120.0, 1080.0 - (t0 - ck.t0))
+    n_valid, n_tmpl, n_mut = ck.n(220, 6000), ck.n(900, 16000), ck.n(320, 9000)
     try:
         for fam, src in c03_gen.corpus():  # fixed witnesses first
             c.one("corpus", fam.split(":", 1)[1], src)
@@ -354,6 +388,7 @@ def run(ck):
     ck.cov["search"] = st
     ck.cov["failure_tags"] = {"%s:%s" % k: v for k, v in sorted(c.tags.items())}
     ck.cov["locate_mismatch"] = c.locate_mismatch
+    ck.cov["rejected_in_a_callee_not_foo"] = c.callee_rejected
     ck.cov["aliasing"] = c.alias
     if c.locate_mismatch:
         ck.broken_obligation("locate-agrees-with-run", "%d failures were not reproduced by Bounds.Locate" % c.locate_mismatch)
